@@ -4,6 +4,7 @@ package udpip
 
 import (
 	"errors"
+	"net"
 
 	"github.com/scionproto/scion/router"
 	underlayconn "github.com/scionproto/scion/private/underlay/conn"
@@ -25,6 +26,7 @@ type c14SendConn struct {
 	calls    int
 	maxCalls int
 	written  int // packets the socket accepted
+	pending  bool // shutdown arrived while packets were still queued or held by the stage
 }
 
 func (c *c14SendConn) ReadBatch(underlayconn.Messages) (int, error) { return 0, errC14 }
@@ -33,7 +35,7 @@ func (c *c14SendConn) Close() error                                 { return nil
 func (c *c14SendConn) WriteBatch(msgs underlayconn.Messages, flags int) (int, error) {
 	c.calls++
 	n := len(msgs)
-	w := verif.Choose("written", n+2) - 1 // -1 (error) .. n
+	w := int(verif.Concrete(uint64(verif.NondetInt("written", -1, n)))) // -1 (error) .. n, enumerated by the solver
 	acc := w
 	if acc < 0 {
 		acc = 0
@@ -49,6 +51,7 @@ func (c *c14SendConn) WriteBatch(msgs underlayconn.Messages, flags int) (int, er
 		stop = verif.Choose("stop", 2) == 1
 	}
 	if stop && c.u.running.Load() {
+		c.pending = left > 0 || len(c.u.queue) > 0
 		c.u.running.Store(false)
 		close(c.u.queue)
 	}
@@ -67,7 +70,7 @@ func VerifC14Send() {
 	u := &udpConnection{
 		name:      "verif",
 		queue:     make(chan *router.Packet, n),
-		metrics:   &router.InterfaceMetrics{},
+		metrics:   router.VerifC14InterfaceMetrics(),
 		connected: verif.Choose("connected", 2) == 1,
 	}
 	c := &c14SendConn{u: u, maxCalls: verif.Param("calls")}
@@ -96,6 +99,13 @@ func VerifC14Send() {
 	}
 	verif.Observe("census", once, twice, lost, inQueue, foreign, c.written)
 	verif.Assert("send-no-packet-returned-twice", twice == 0 && foreign == 0)
+	// shutdown arriving when all traffic has been handled: every packet is back in the pool
+	if !c.pending {
+		verif.Assert("send-every-packet-returned-once-when-stopped-idle", once == n)
+		verif.Cover("send-stopped-idle")
+	} else {
+		verif.Cover("send-stopped-with-pending-packets")
+	}
 	// every packet the stage took from its queue is back in the pool when the stage has ended
 	verif.Assert("send-stage-retains-no-packet-at-exit", lost == inQueue)
 	// nothing is left behind in the queue of a stopped connection
@@ -112,7 +122,7 @@ func VerifC14Send() {
 func VerifC14SendTwin() {
 	n := verif.Param("n")
 	pool, all := router.VerifC14NewPool(n)
-	u := &udpConnection{name: "verif", queue: make(chan *router.Packet, n), metrics: &router.InterfaceMetrics{}}
+	u := &udpConnection{name: "verif", queue: make(chan *router.Packet, n), metrics: router.VerifC14InterfaceMetrics()}
 	c := &c14SendConn{u: u, maxCalls: verif.Param("calls")}
 	u.conn = c
 	u.running.Store(true)
@@ -128,4 +138,107 @@ func VerifC14SendTwin() {
 		back += t
 	}
 	verif.Assert("twin", back == 0)
+}
+
+// Stage udpConnection.receive (with the real internalLink.receive as the distinguished link): the
+// BatchConn's ReadBatch returns an error or any number of messages in [0, len(msgs)]; shutdown
+// (running=false) may arrive during any ReadBatch; the processing queue has a small capacity, so
+// hand-over succeeds or finds the queue full. At the end every packet of the pool is either back
+// in the pool or in the processing queue, exactly once.
+
+type c14RecvConn struct {
+	u         *udpConnection
+	calls     int
+	maxCalls  int
+	delivered int
+	addr      *net.UDPAddr
+}
+
+func (c *c14RecvConn) WriteBatch(underlayconn.Messages, int) (int, error) { return 0, errC14 }
+func (c *c14RecvConn) Close() error                                        { return nil }
+
+func (c *c14RecvConn) ReadBatch(msgs underlayconn.Messages) (int, error) {
+	c.calls++
+	stop := c.calls >= c.maxCalls
+	if !stop {
+		stop = verif.Choose("stop", 2) == 1
+	}
+	if stop {
+		c.u.running.Store(false)
+	}
+	k := int(verif.Concrete(uint64(verif.NondetInt("read", -1, len(msgs))))) // -1 = error
+	if k < 0 {
+		return 0, errC14
+	}
+	for i := 0; i < k; i++ {
+		msgs[i].N = 100
+		msgs[i].Addr = c.addr
+	}
+	c.delivered += k
+	return k, nil
+}
+
+// VerifC14Receive params: batch, calls (max ReadBatch calls), qcap (processing queue capacity)
+func VerifC14Receive() {
+	batch := verif.Param("batch")
+	calls := verif.Param("calls")
+	n := batch * (calls + 1)
+	pool, all := router.VerifC14NewPool(n)
+	l := &internalLink{
+		procQ:   make(chan *router.Packet, verif.Param("qcap")),
+		metrics: router.VerifC14InterfaceMetrics(),
+		pool:    pool,
+	}
+	u := &udpConnection{name: "verif", link: l, metrics: l.metrics}
+	c := &c14RecvConn{u: u, maxCalls: calls, addr: &net.UDPAddr{IP: net.IP{10, 0, 0, 1}, Port: 30042}}
+	u.conn = c
+	u.running.Store(true)
+
+	u.receive(batch, pool)
+
+	times, foreign := router.VerifC14Census(pool, all)
+	queued := make([]int, n)
+	nq := len(l.procQ)
+	for i := 0; i < nq; i++ {
+		p := <-l.procQ
+		for j, q := range all {
+			if p == q {
+				queued[j]++
+			}
+		}
+	}
+	ok, lost, dup := true, 0, 0
+	for j := range all {
+		owners := times[j] + queued[j]
+		if owners == 0 {
+			lost++
+		}
+		if owners > 1 {
+			dup++
+		}
+		ok = ok && owners == 1
+	}
+	verif.Observe("census", nq, lost, dup, foreign, c.delivered)
+	verif.Assert("receive-every-packet-has-exactly-one-owner-at-exit", ok && foreign == 0)
+	verif.Assert("receive-handed-over-at-most-what-was-read", nq <= c.delivered)
+	if nq > 0 && nq < c.delivered {
+		verif.Cover("receive-queue-full-drop")
+	}
+	if c.calls > 1 {
+		verif.Cover("receive-several-batches")
+	}
+}
+
+// VerifC14ReceiveTwin: reachability twin ("nothing is ever handed to the processing queue").
+func VerifC14ReceiveTwin() {
+	batch := verif.Param("batch")
+	calls := verif.Param("calls")
+	pool, _ := router.VerifC14NewPool(batch * (calls + 1))
+	l := &internalLink{procQ: make(chan *router.Packet, 2), metrics: router.VerifC14InterfaceMetrics(), pool: pool}
+	u := &udpConnection{name: "verif", link: l, metrics: l.metrics}
+	c := &c14RecvConn{u: u, maxCalls: calls, addr: &net.UDPAddr{IP: net.IP{10, 0, 0, 1}, Port: 30042}}
+	u.conn = c
+	u.running.Store(true)
+	u.receive(batch, pool)
+	verif.Assert("twin", len(l.procQ) == 0)
 }
